@@ -8,7 +8,10 @@ PROPS_FILE = "C15.v"
 RUN_MODULE = "RunC15"
 TRANSLATOR_UNITS = ["data"]
 SHARD = 400
-RULE = ("layout trees of depth <= 3 (struct/union/array/flexible over u0..u5, s1..s5 and small shaped Enum/IntEnum leaves) "
+RULE = ("layout trees of depth <= 3 (struct/union/array/flexible over u0..u5, s1..s5, small shaped Enum/IntEnum leaves, "
+        "range(a, b) fields and plain Python Enum/IntEnum/Flag fields (width and signedness computed in Coq by the C10 models "
+        "cast_range / cast_enum over all members incl. aliases), shaped Flag/IntFlag fields with boundary STRICT or KEEP "
+        "(model: enumeration leaf of Data.flag_values)) "
         "built with the real classes: placement (size, offset/width of every field by iteration and by key), "
         "Layout.const(init) + nested Const.__getitem__ paths, from_bits/as_bits + every field (raw exhaustive for size <= 8 "
         "incl. -1 and 2^size, random above), simulator ctx.get(view[path]) incl. dynamic array index, "
@@ -45,9 +48,56 @@ FINDING_UNION_CONST = "C15-union-const-passthrough"      # fixed by 65f681c; pro
 
 
 # ---------------------------------------------------------------- layouts (JSON <-> real objects / Gallina)
+LEAFK = ("leaf", "enum", "range", "penum")
+
+
+def _bits_for(n, sign=False):
+    if n > 0:
+        r = n.bit_length()
+    else:
+        sign = True
+        r = (-n - 1).bit_length() if n < 0 else 0
+    return r + (1 if sign else 0)
+
+
+def _range_shape(a, b):
+    if b <= a:
+        return 0, False
+    sg = a < 0
+    if a == b - 1 == 0:
+        return 0, sg
+    return max(_bits_for(a, sg), _bits_for(b - 1, sg)), sg
+
+
+def _enum_shape(ms):
+    w, sg = 0, False
+    for v in ms:
+        mw, msg = _bits_for(v), v < 0
+        if not sg and msg:
+            sg, w = True, max(w + 1, mw)
+        elif sg and not msg:
+            w = max(w, mw + 1)
+        else:
+            w = max(w, mw)
+    return w, sg
+
+
+def plain(l):
+    """range(a, b) / plain Python enum fields behave as plain fields of the cast shape (GENERATOR-side view)"""
+    if l is not None and l[0] == "range":
+        w, sg = _range_shape(l[1], l[2])
+        return ["leaf", w, sg]
+    if l is not None and l[0] == "penum":
+        w, sg = _enum_shape(l[2])
+        return ["leaf", w, sg]
+    return l
+
+
 def lsize(l):
     t = l[0]
-    if t in ("leaf", "enum"):
+    if t in ("range", "penum"):
+        return plain(l)[1]
+    if t in LEAFK:
         return l[1]
     if t == "struct":
         return sum(lsize(f) for _, f in l[1])
@@ -74,12 +124,34 @@ def build_enum(w, sg, vw, ms):
     return _enum_cache[key]
 
 
+def build_penum(kind, ms):
+    import enum as pe
+    key = ("penum", kind, tuple(ms))
+    if key not in _enum_cache:
+        base = {"E": pe.Enum, "I": pe.IntEnum, "F": pe.Flag}[kind]
+        _enum_cache[key] = base("P", [(f"M{i}", v) for i, v in enumerate(ms)])
+    return _enum_cache[key]
+
+
+def build_flagleaf(w, vw, ms, b):
+    key = ("flagleaf", w, vw, tuple(ms), b)
+    if key not in _enum_cache:
+        _enum_cache[key] = make_flag({"w": w, "ms": ms, "b": b}, intflag=not vw)
+    return _enum_cache[key]
+
+
 def build(l):
     from amaranth.hdl import Shape
     from amaranth.lib import data
     t = l[0]
     if t == "leaf":
         return Shape(l[1], l[2])
+    if t == "range":
+        return range(l[1], l[2])
+    if t == "penum":
+        return build_penum(l[1], l[2])
+    if t == "enum" and len(l) > 5:             # shaped Flag / IntFlag class (STRICT or KEEP) as a field
+        return build_flagleaf(l[1], l[3], l[5]["ms"], l[5]["b"])
     if t == "enum":
         return build_enum(l[1], l[2], l[3], l[4])
     if t == "struct":
@@ -122,7 +194,7 @@ def pyinit(l, i):
     out = {}
     for k, x in i:
         s = sub(l, k) if l is not None else None
-        out[pykey(l, k) if l is not None and l[0] not in ("leaf", "enum") else f"f{k}"] = pyinit(s, x)
+        out[pykey(l, k) if l is not None and l[0] not in LEAFK else f"f{k}"] = pyinit(s, x)
     return out
 
 
@@ -130,6 +202,12 @@ def g_layout(l):
     t = l[0]
     if t == "leaf":
         return f"(Leaf (Sh {z(l[1])} {blit(l[2])}))"
+    if t == "range":
+        return f"(Leaf (cast_range {z(l[1])} {z(l[2])} 1))"
+    if t == "penum":
+        return f"(Leaf (cast_enum {zlist(l[2])}))"
+    if t == "enum" and len(l) > 5:
+        return f"(flag_leaf (FlagCls {z(l[1])} {zlist(l[5]['ms'])} {l[5]['b']}) {blit(l[3])})"
     if t == "enum":
         return f"(ELeaf (Sh {z(l[1])} {blit(l[2])}) {blit(l[3])} {zlist(l[4])})"
     if t in ("struct", "union"):
@@ -175,7 +253,7 @@ def pyxinit(l, x):
         out = {}
         for k, y in x:
             s = sub(l, k) if l is not None else None
-            out[pykey(l, k) if l is not None and l[0] not in ("leaf", "enum") else f"f{k}"] = pyxinit(s, y)
+            out[pykey(l, k) if l is not None and l[0] not in LEAFK else f"f{k}"] = pyxinit(s, y)
         return out
     if "c" in x:
         v, w, sg = x["c"]
@@ -184,7 +262,9 @@ def pyxinit(l, x):
         return build(x["d"][0]).from_bits(x["d"][1])
     if "m" in x:
         if l is not None and l[0] == "enum" and x["m"] in l[4]:
-            return build_enum(l[1], l[2], l[3], l[4])(x["m"])
+            return build(l)(x["m"])
+        if l is not None and l[0] == "penum" and x["m"] in l[2]:
+            return build(l)(x["m"])
         return x["m"]
     s = l[1] if l is not None and l[0] == "array" else None
     return [pyxinit(s, y) for y in x["seq"]]
@@ -199,7 +279,7 @@ def variant_layout(rng, l):
     if t == "struct" and l[1] and r < 0.7:       # same fields as a flexible layout (compares equal), shuffled
         off, fs = 0, []
         for k, f in l[1]:
-            g = ["leaf", lsize(f), False] if f[0] not in ("leaf", "enum") and rng.random() < 0.5 else f
+            g = ["leaf", lsize(f), False] if f[0] not in LEAFK and rng.random() < 0.5 else f
             fs.append([k, off, g])
             off += lsize(f)
         rng.shuffle(fs)
@@ -220,6 +300,11 @@ def variant_layout(rng, l):
 
 def gen_xinit(rng, l, top=True):
     """mixed-kind initialiser for layout l; returns (xinit, leaf paths reachable through mappings)."""
+    if l[0] in ("range", "penum"):
+        x, ps = gen_xinit(rng, plain(l), top)
+        if l[0] == "penum" and rng.random() < 0.5:
+            return {"m": rng.choice(l[2])}, [[]]            # a member of the plain Python enumeration
+        return x, ps
     t = l[0]
     if t == "leaf":
         w = l[1]
@@ -240,7 +325,7 @@ def gen_xinit(rng, l, top=True):
         if r < 0.5:
             return {"m": rng.choice(l[4])}, [[]]
         if r < 0.7:
-            return rng.choice(l[4] + [rng.randrange(-2, 6)]), [[]]
+            return rng.choice(l[4] + [rng.randrange(0, 1 << l[1]) if len(l) > 5 else rng.randrange(-2, 6)]), [[]]
         if r < 0.95:
             cw = rng.choice([l[1], l[1], l[1] + 1])
             csg = l[2] if rng.random() < 0.8 else not l[2]
@@ -323,7 +408,7 @@ def gen_synth(rng):
     """a design whose statements assign through view fields: layout, init, comb / clocked statements, stimulus."""
     for _ in range(50):
         l = gen_layout(rng, rng.randrange(1, 4), signed_enum=False, wide=rng.random() < 0.4)
-        if l[0] in ("leaf", "enum"):
+        if l[0] in LEAFK:
             l = ["struct", [[0, l], [1, list(rng.choice(LEAVES))]]]
         n = lsize(l)
         cands = [p for p in leaf_paths(l) if lsize(target(l, p)) > 0]
@@ -336,7 +421,7 @@ def gen_synth(rng):
     ins, stmts, used = [], [], {"comb": [], "sync": []}
     rng.shuffle(cands)
     for p in cands[:rng.randrange(1, 5)]:
-        t = target(l, p)
+        t = plain(target(l, p))
         dyn = None
         par = target(l, p[:-1])
         if par[0] == "array" and rng.random() < 0.5:
@@ -512,13 +597,42 @@ def gen_enum_leaf(rng, allow_signed=False):
     return ["enum", w, sg, rng.random() < 0.6, ms]
 
 
+def gen_flag_leaf(rng):
+    import enum as pe
+    nb = rng.randrange(1, 4)
+    ms = [1 << b for b in rng.sample(range(0, 4), nb)]
+    if rng.random() < 0.4:
+        ms.append(rng.randrange(0, 16))
+    m = 0
+    for v in ms:
+        m |= v
+    w = max(1, m.bit_length()) + rng.choice([0, 0, 1])
+    b = rng.choice(["STRICT", "KEEP"])
+    PF = pe.Flag("F", [(f"M{i}", v) for i, v in enumerate(ms)], boundary=getattr(pe, b))
+    values = [v for v in range(1 << w) if _valid_operand(PF, v)]     # choices for the generator; the model recomputes them
+    return ["enum", w, False, rng.random() < 0.6, values, {"ms": ms, "b": b}]
+
+
 def gen_layout(rng, depth, signed_enum=False, wide=False):
     r = rng.random()
     if depth == 0 or r < 0.25:
         if wide and rng.random() < 0.3:
             return list(rng.choice(LEAVES_WIDE))
-        if rng.random() < 0.15:
+        r2 = rng.random()
+        if r2 < 0.15:
             return gen_enum_leaf(rng, signed_enum)
+        if r2 < 0.23:                                   # range(a, b): width / signedness through Shape.cast
+            a = rng.randrange(-9, 9)
+            return ["range", a, a + rng.choice([0, 1, 2, 3, 5, 8, 17])]
+        if r2 < 0.30:                                   # plain Python Enum / IntEnum / Flag (aliases, multi-bit members)
+            kind = rng.choice(["E", "I", "F"])
+            n_ = rng.randrange(1, 5)
+            ms = [rng.randrange(0, 12) for _ in range(n_)] if kind == "F" else [rng.randrange(-6, 10) for _ in range(n_)]
+            if kind != "F":
+                ms = list(dict.fromkeys(ms))
+            return ["penum", kind, ms]
+        if r2 < 0.37:                                   # shaped Flag / IntFlag class, boundary STRICT or KEEP
+            return gen_flag_leaf(rng)
         return list(rng.choice(LEAVES))
     kind = rng.choice(["struct", "struct", "union", "array", "flex"])
     if kind in ("struct", "union"):
@@ -547,6 +661,8 @@ def keys_of(l):
 
 def gen_init(rng, l, bad=0.0):
     """initialiser for layout l; returns (init, leaf paths)."""
+    if l[0] in ("range", "penum"):
+        return gen_init(rng, plain(l), bad)
     t = l[0]
     if t == "leaf":
         if rng.random() < bad:
@@ -555,7 +671,7 @@ def gen_init(rng, l, bad=0.0):
         return rng.randrange(-(1 << w) - 2, (1 << w) + 3), [[]]
     if t == "enum":
         if rng.random() < bad:
-            return rng.randrange(-3, 9), [[]]
+            return (rng.randrange(0, 1 << l[1]) if len(l) > 5 else rng.randrange(-3, 9)), [[]]
         return rng.choice(l[4]), [[]]
     if rng.random() < bad:
         return rng.randrange(0, 4), []
@@ -589,7 +705,7 @@ def leaf_paths(l, pre=()):
     for k in keys_of(l):
         s = sub(l, k)
         out.append(list(pre) + [k])
-        if s[0] not in ("leaf", "enum"):
+        if s[0] not in LEAFK:
             out += leaf_paths(s, tuple(pre) + (k,))
     return out
 
@@ -662,7 +778,7 @@ def gen_cases(tier, seed):
     for it in range(N):
         depth = rng.randrange(1, 4)
         l = gen_layout(rng, depth, signed_enum=rng.random() < 0.08, wide=rng.random() < 0.25)
-        if l[0] in ("leaf", "enum"):
+        if l[0] in LEAFK:
             l = ["struct", [[0, l]]]
         n = lsize(l)
         cases.append({"k": "layout", "l": l})
@@ -700,10 +816,10 @@ def gen_cases(tier, seed):
                 for idx in range(0, a[2] + (1 if rng.random() < 0.3 else 0)):
                     cases.append({"k": "viewdyn", "l": l, "tv": rng.randrange(0, 1 << n), "p": p, "idx": idx})
             # assignment through a field (plain leaves)
-            lp = [p for p in leaf_paths(l) if target(l, p)[0] == "leaf"]
+            lp = [p for p in leaf_paths(l) if plain(target(l, p))[0] == "leaf"]
             rng.shuffle(lp)
             for p in lp[:3]:
-                w = target(l, p)[1]
+                w = plain(target(l, p))[1]
                 x = rng.choice([rng.randrange(-(1 << w) - 1, (1 << w) + 2), (1 << w) - 1, -1, rng.randrange(-200, 200)])
                 last_arr = target(l, p[:-1])[0] == "array"
                 # a dynamic index needs a positive element width (Part stride); then Part == Slice arithmetic
@@ -714,7 +830,7 @@ def gen_cases(tier, seed):
         lx = l if it % 3 else overlapping_flex(rng)
         if it % 3 == 1:
             lx = gen_layout(rng, depth, signed_enum=rng.random() < 0.15, wide=rng.random() < 0.5)
-            if lx[0] in ("leaf", "enum"):
+            if lx[0] in LEAFK:
                 lx = ["struct", [[0, lx], [1, list(rng.choice(LEAVES))]]]
         for _ in range(3):
             xi, xps = gen_xinit(rng, lx)
@@ -793,10 +909,10 @@ def tval(o, lj, p):
     from amaranth.lib import data
     t = target(lj, p)
     if isinstance(o, data.Const):
-        ok = t is not None and t[0] not in ("leaf", "enum") and o.shape() == build(t)
+        ok = t is not None and t[0] not in LEAFK and o.shape() == build(t)
         return [1 if ok else 9, o.as_bits()]
     if isinstance(o, pe.Enum):
-        ok = t is not None and t[0] == "enum" and type(o) is build_enum(t[1], t[2], t[3], t[4])
+        ok = t is not None and t[0] == "enum" and type(o) is build(t)
         return [2 if ok else 9, o.value]
     return [0 if type(o) is int else 9, int(o)]
 
@@ -817,7 +933,7 @@ def walk_attr(obj, l, p):
 
 def walk(obj, l, p):
     for k in p:
-        key = pykey(l, k) if l is not None and l[0] not in ("leaf", "enum") else f"f{k}"
+        key = pykey(l, k) if l is not None and l[0] not in LEAFK else f"f{k}"
         obj = obj[key]
         l = sub(l, k) if l is not None else None
     return obj
@@ -890,6 +1006,8 @@ def run_impl(c):
             return [0, code(e)]
     lj = c["l"]
     L = build(lj)
+    if L.size != lsize(lj):
+        raise AssertionError(f"generator-side size {lsize(lj)} differs from Layout.size {L.size}")
     if k == "layout":
         out = [L.size]
         items = list(L)
